@@ -759,9 +759,10 @@ impl<'tcx> Ex<'tcx> {
             DefKind::AssocFn => (tcx.optimized_mir(did), "assoc"),
             DefKind::Closure => {
                 if tcx.is_coroutine(did) {
-                    return None;
+                    (tcx.optimized_mir(did), "coroutine")
+                } else {
+                    (tcx.optimized_mir(did), "closure")
                 }
-                (tcx.optimized_mir(did), "closure")
             }
             DefKind::Static { .. } => (tcx.mir_for_ctfe(did), "static"),
             DefKind::Const { .. } | DefKind::AssocConst { .. } => (tcx.mir_for_ctfe(did), "const"),
